@@ -33,7 +33,7 @@ type awaitKey struct {
 type settleTracker struct {
 	await map[awaitKey]awaitEntry
 	// per-event context, recomputed by advance()
-	seizedV1, seizedV2, settledV1, settledV2 int
+	seizedV1, seizedV2, settledV1, settledV2, esmHandBackV2 int
 	// extraV2[product] = sum over generation-2 settlements of this event of
 	// (total debt recorded at seizure - principal): interest + closing fee
 	extraV2 map[uint64]*big.Int
@@ -50,7 +50,7 @@ type seizure struct {
 func newSettleTracker() *settleTracker { return &settleTracker{await: map[awaitKey]awaitEntry{}} }
 
 func (s *settleTracker) advance(pre, post *cdpSnap) {
-	s.seizedV1, s.seizedV2, s.settledV1, s.settledV2 = 0, 0, 0, 0
+	s.seizedV1, s.seizedV2, s.settledV1, s.settledV2, s.esmHandBackV2 = 0, 0, 0, 0, 0
 	s.extraV2 = map[uint64]*big.Int{}
 	s.seized = nil
 	for id, lv := range post.LockedV1 {
@@ -96,7 +96,12 @@ func (s *settleTracker) advance(pre, post *cdpSnap) {
 					s.extraV2[e.Prod].Add(s.extraV2[e.Prod], bigSub(lv.DebtToken.Amount.BigInt(), e.Out))
 				}
 				delete(s.await, k)
-				s.settledV2++
+				if lv, ok := pre.LockedV2[k.ID]; ok && pre.ESM[lv.AppId].Status && post.Height != pre.Height {
+					// the app is in emergency shutdown and no bid closed the auction: the seized vault is handed back
+					s.esmHandBackV2++
+				} else {
+					s.settledV2++
+				}
 			}
 		}
 	}
@@ -115,6 +120,9 @@ func (s *settleTracker) context(pre, post *cdpSnap) string {
 	}
 	if s.settledV2 > 0 {
 		parts = append(parts, "settlement-v2")
+	}
+	if s.esmHandBackV2 > 0 {
+		parts = append(parts, "esm-hand-back-v2")
 	}
 	for app, e := range post.ESM {
 		if e.Status && !pre.ESM[app].Status {
@@ -308,6 +316,10 @@ func TestC01(t *testing.T) {
 		cfg := cdpCfg{priceMoves: run%2 == 1 || variant%3 == 0, bids: true, lockers: true, unsolicited: true, liquidateMsg: true, reserve: variant%2 == 0}
 		r := newCdpRunner(u, rnd, rec, cfg, newC01Mon(u, rec))
 		r.run(cdpSteps())
+		// emergency shutdown of one app at the end of every second run
+		if variant%2 == 1 {
+			r.esmPhase(u.cdpApps[(variant/2)%len(u.cdpApps)])
+		}
 		if run == 0 {
 			rec.Sample(map[string]interface{}{"variant": variant, "oplog_tail": r.tail(12)})
 		}
